@@ -184,6 +184,10 @@ def merge_stats(files):
 
 def write_evidence(pid, tier, seed, level, coverage, wall, violations, assumptions):
     os.makedirs(os.path.join(VERIF, "evidence"), exist_ok=True)
+    for k in ("evaluations", "distinct_nontrivial", "states", "transitions", "traces_validated_against_impl",
+              "obligations", "discharged", "programs", "disagreements_checked"):
+        if k in coverage and not isinstance(coverage[k], int):
+            raise SystemExit(f"evidence key {k} must be an integer (EVIDENCE.schema.json)")
     ev = {
         "property_id": pid,
         "tier": tier,
@@ -356,7 +360,7 @@ def check_seq(pid, tier, seed):
         "operations": counters.get("ops", 0),
         "per_configuration": {k[6:]: v for k, v in counters.items() if k.startswith("cases.")},
         "universe_kinds": {k[9:]: v for k, v in counters.items() if k.startswith("universe.")},
-        "transitions": {k[11:]: v for k, v in counters.items() if k.startswith("transition.")},
+        "structural_transitions": {k[11:]: v for k, v in counters.items() if k.startswith("transition.")},
         "excluded_known_findings": {"K1": counters.get("k1_excluded_ops", 0),
                                     "histories_touching_K1": counters.get("cases_with_k1_exclusion", 0)},
         "regression_replays": nrep,
